@@ -81,7 +81,10 @@ func c14ChainField(r *Run, fix *ssa.Function, key, addrGlob, hashType string) {
 // function literal or the function/method started by the go statement; it must contain exactly one
 // IssuanceChainCache.Set, whose key and value are parameters of f — they are resolved to the
 // values the go statement passes for those parameters (evaluated at the go statement, in the
-// caller), so the rule decides "cache.Set(key, value) is called with …" whatever carries the call.
+// caller) — or variables of the caller that the literal captures and that hold one value
+// throughout (a parameter never reassigned, a local assigned once before the literal is made and
+// written by no literal: c14CellValue) — they are resolved to that value.  So the rule decides
+// "cache.Set(key, value) is called with …" whatever carries the call and the values.
 func c14CacheFill(r *Run, g *ssa.Go) (key, val ssa.Value, why string) {
 	callee := g.Call.StaticCallee()
 	if callee == nil || len(callee.Blocks) == 0 {
@@ -94,7 +97,7 @@ func c14CacheFill(r *Run, g *ssa.Go) (key, val ssa.Value, why string) {
 	actual := func(v ssa.Value) ssa.Value {
 		p, ok := v.(*ssa.Parameter)
 		if !ok {
-			return nil
+			return c14CapturedAt(g, v)
 		}
 		i := paramIndex(p)
 		if i < 0 || len(callee.Params) != len(g.Call.Args) || i >= len(g.Call.Args) {
@@ -108,7 +111,7 @@ func c14CacheFill(r *Run, g *ssa.Go) (key, val ssa.Value, why string) {
 	}
 	key, val = actual(a[2]), actual(a[3])
 	if key == nil || val == nil {
-		return nil, nil, "undecided: key/value of cache.Set in " + FuncName(callee) + " are not its parameters (" + r.D.D(a[2]) + ", " + r.D.D(a[3]) + ")"
+		return nil, nil, "undecided: key/value of cache.Set in " + FuncName(callee) + " are neither its parameters nor captured variables that hold one value throughout (" + r.D.D(a[2]) + ", " + r.D.D(a[3]) + ")"
 	}
 	return key, val, ""
 }
